@@ -117,6 +117,7 @@ class Ctx:
         c.mc_runs, c.distinct, c.samples, c.rejections = [], set(), [], []
         c.assumptions, c.notes, c.apalache, c.extra = [], [], [], {}
         c.label = label
+        c.light = getattr(self, "light", 0)
         return c
 
     def merge(self, c):
@@ -190,6 +191,8 @@ class Ctx:
         precondition check, a segfault): that is data, not a tool failure.  The run is then repeated in
         careful mode to find the execution that crashed, which becomes a rejection of kind 'crash'
         (replay = that stimulus); execution continues after it."""
+        if getattr(self, "light", 0):
+            stim = thin_stimuli(stim, self.light)
         args = ["run", stim, trace] + (extra_args or [])
         rc, out, dt = run([binpath] + args, cwd=self.work, timeout=timeout)
         if rc == 0:
@@ -366,6 +369,21 @@ class Ctx:
             print(l, flush=True)
         shutil.rmtree(self.work, ignore_errors=True)
         return 1 if viol else 0
+
+
+def thin_stimuli(path, keep):
+    """C07's quick tier re-runs every family only to watch the heap counters: a stimuli file with more than
+    `keep` executions (one per line) is thinned to an evenly spaced subset of about that size.  Files in the
+    one-event-per-line form (replays) and small files are left alone."""
+    with open(path) as f:
+        lines = f.readlines()
+    if len(lines) <= keep or not lines or not lines[0].lstrip().startswith("["):
+        return path
+    stride = (len(lines) + keep - 1) // keep
+    out = path + ".thin"
+    with open(out, "w") as f:
+        f.writelines(lines[::stride])
+    return out
 
 
 def load_stimuli(path):
